@@ -1,7 +1,7 @@
 ------------------------------ MODULE TraceVM ------------------------------
 (* impl -> spec: lock-step validation of recorded executions of the real VM against FMLVM.
    Input (env TRACES): ndjson, one record per execution
-       [bytes, events : Seq([op, sd, top, fd, hl, ol, next, loc, new]), out, ok, diverged, fin]
+       [bytes, events : Seq([op, sd, top, fd, hl, ol, next, loc, new]), out, ok, diverged, fin, hasref, refout, refok]
    The programs are read from their bytes by the independent decoder.  Every event is one
    instruction executed by the implementation (hook after eval_opcode returned Ok); the spec
    machine takes the same step and its projected state must equal the logged fields.
@@ -62,6 +62,7 @@ EndOk == LET r == Rec[t] IN
                          /\ r.ok = (vm.st = "done") /\ ~r.diverged
                          /\ r.out = vm.out
                          /\ (vm.st = "done" /\ r.hasfin => LoggedFinal(r.fin) = ProjFinal(Img(t), vm))
+                         /\ (r.hasref => (r.refok = r.ok /\ r.refout = r.out))   \* a relaid program behaves like the original
     [] OTHER -> FALSE
 Final == ~Stop \/ PrintT(<<"VERDICT", ToJson([t |-> t, id |-> Rec[t].id, l |-> l, verdict |-> verdict, end_ok |-> EndOk,
                                                st |-> vm.st, steps |-> l - 1])>>)
